@@ -1267,6 +1267,11 @@ package resolve
 //@   at call Map.LoadOrStore: assert {key.covers.operation.variables.headers} g_puts == 3 && g_c0 == ctx.Request.ID && g_c1 == ctx.VariablesHash && g_c2 == g_hh
 //@   at call Map.LoadOrStore: assert {key.is.the.digest.of.the.three.components} g_wrote && payload(arg1) == g_key && istype(arg1, "uint64")
 //@   at call Map.LoadOrStore: ghost g_shared = result1
+//@   ghost var g_done int = 0
+//@   ghost var g_hasDone bool = false
+//@   at call Context.Done: ghost g_done = result
+//@   at call Context.Done: ghost g_hasDone = true
+//@   at call $wait: assert {a.follower.wait.also.listens.to.its.own.cancellation} g_hasDone && waitson(g_done)
 //@   at call Map.LoadOrStore: ghost request.leaderPerm = !result1
 //@   ensures {not.eligible.not.shared} old(ctx.ExecutionOptions.DisableInboundRequestDeduplication) ==> result0 == nil && result1 == nil
 //@   ensures {leader.gets.the.close.permission} result0 != nil && !g_shared ==> result0.leaderPerm && fresh(result0)
@@ -1306,6 +1311,9 @@ package resolve
 //@   ghost var g_in *InflightRequest = nil
 //@   ghost var g_leader bool = false
 //@   at call InboundRequestSingleFlight.GetOrCreate: ghost g_in = result0
+//@   ghost var g_wroteClient bool = false
+//@   at call Writer.Write: ghost g_wroteClient = true
+//@   at call InboundRequestSingleFlight.FinishErr: assert {only.failures.of.the.shared.work.are.handed.to.followers.not.the.leaders.own.client.io} !g_wroteClient
 //@   at call InboundRequestSingleFlight.GetOrCreate: ghost g_leader = result0 != nil && result0.leaderPerm
 //@   ensures {a.leader.always.finishes} g_leader ==> !g_in.leaderPerm
 //@   modifies *, count(*), allof(InflightRequest.leaderPerm)
@@ -1405,6 +1413,11 @@ package resolve
 //@   at call SubgraphRequestSingleFlight.GetOrCreateItem: ghost g_shared = result1
 //@   at call SubgraphRequestSingleFlight.GetOrCreateItem: ghost g_used = true
 //@   at call Context.Err: ghost g_cancelled = true
+//@   ghost var g_done int = 0
+//@   ghost var g_hasDone bool = false
+//@   at call Context.Done: ghost g_done = result
+//@   at call Context.Done: ghost g_hasDone = true
+//@   at call $wait: assert {a.follower.wait.also.listens.to.its.own.cancellation} g_hasDone && waitson(g_done)
 //@   ensures {only.queries.are.deduplicated} g_used ==> fetchItem != nil && old(fetchItem.Fetch != nil && infoOf(fetchItem.Fetch) != nil && infoOf(fetchItem.Fetch).OperationType == ast.OperationTypeQuery && !l.ctx.ExecutionOptions.DisableSubgraphRequestDeduplication)
 //@   ensures {a.leader.always.finishes} forall x :: !ghostat(SingleFlightItem.leaderPerm, x)
 //@   ensures {follower.sends.nothing} g_shared ==> count(sent) == old(count(sent))
